@@ -916,6 +916,15 @@ func (tb *termBuilder) inlineNewHelper(c *ssa.Call, idx int, tuple bool) *Term {
 			m[pinnedParamName(p)] = tb.term(c.Call.Args[i], c)
 		}
 	}
+	// the helper's parameters mean the arguments of THIS call while its return expression is rendered
+	prev, had := helperCtx[callee]
+	setHelperCtx(callee, c)
 	inner := &termBuilder{P: tb.P, stack: map[ssa.Value]bool{}, depth: tb.depth + 1}
-	return inner.term(rets[0].Results[idx], rets[0]).Subst(m)
+	t := inner.term(rets[0].Results[idx], rets[0]).Subst(m)
+	if had {
+		helperCtx[callee] = prev
+	} else {
+		delete(helperCtx, callee)
+	}
+	return t
 }
